@@ -374,7 +374,7 @@ pub fn run_ring(which: Which, tier: Tier) -> ! {
 // C02(b): the LAS bookkeeping in isolation — complete closure of the reachable states
 
 fn las_fp(r: &profirust::fdl::VerifTokenRing) -> String {
-    format!("{:?}", r)
+    format!("{:?}{:?}", r, r.verif_last_witnessed_sender())
 }
 
 pub fn las_closure(ev: &mut Evidence) {
